@@ -13,8 +13,11 @@
    The position algebra of SourceMapPos.tla / SourceMapOps.tla in closed form: the start of line k is
    the sum of the lengths of the lines before it plus their newlines; (index, line, col) is a
    position of the text iff line exists, col <= length of the line and index = LineStart(line) + col.
-   Property clauses (C06): range in bounds and ordered, line/col agree with the byte index, the text
-   at From begins with Value, name ranges cover exactly the name; error positions lie in the input. *)
+   Property clauses (C06): every recorded position and every error position lies within
+   [0, len(input)] of the caller's input (PositionInInput) -- in particular positions taken at the
+   end of the input, with or without a final newline / CR --, line/col agree with the byte index
+   (PositionConsistent), ranges are ordered, the text at From begins with Value (also for the last
+   node of the file), name ranges cover exactly the name.                                        *)
 EXTENDS Integers, Sequences, TLC, Json
 
 VARIABLES i, fid, n, starts, lens, nbad
@@ -28,16 +31,18 @@ RECURSIVE StartsFrom(_, _, _)
 StartsFrom(ll, k, off) == IF k > Len(ll) THEN <<>> ELSE <<off>> \o StartsFrom(ll, k + 1, off + ll[k] + 1)
 LineStarts(ll) == StartsFrom(ll, 1, 0)
 
-\* p == <<index, line, col>> (0-based line)
-PosOK(p) == /\ 0 <= p[1] /\ p[1] <= n
-            /\ 0 <= p[2] /\ p[2] < Len(starts)
+\* p == <<index, line, col>> (0-based line).  n and the line table are those of the CALLER's input
+\* (the string handed to parser.ParseString), not of any copy the parser may work on.
+InInput(p) == 0 <= p[1] /\ p[1] <= n
+PosOK(p) == /\ 0 <= p[2] /\ p[2] < Len(starts)
             /\ 0 <= p[3] /\ p[3] <= lens[p[2] + 1]
             /\ p[1] = starts[p[2] + 1] + p[3]
+PosViolation(p) == IF ~InInput(p) THEN {"PositionInInput"} ELSE IF ~PosOK(p) THEN {"PositionConsistent"} ELSE {}
 
 Violations(r) ==
-    IF ~PosOK(r.a) THEN {"PositionConsistent"}
+    IF PosViolation(r.a) # {} THEN PosViolation(r.a)
     ELSE IF r.t = "err" THEN {}
-    ELSE IF ~PosOK(r.b) THEN {"PositionConsistent"}
+    ELSE IF PosViolation(r.b) # {} THEN PosViolation(r.b)
     ELSE IF r.a[1] > r.b[1] THEN {"RangeOrdered"}
     ELSE IF r.t = "expr" /\ r.s # r.v THEN {"TextAtFromIsValue"}
     ELSE IF r.t = "name" /\ r.s # r.v THEN {"NameRangeCoversName"}
